@@ -471,6 +471,25 @@ def HexDigit(b, hi):
     return t
 
 
+def NibChar(n):
+    """ASCII code of the lowercase hex digit of the nibble term n (0..15)."""
+    if n.op == 'const':
+        return IntVal(ord('%x' % n.args[0]))
+    t = mk('nibchr', (n,), INT)
+    t.lo, t.hi = 48, 102
+    return t
+
+
+def Select(idx, values):
+    """values[idx] for a constant table of ints and an Int term idx known to be in range: an ite chain (a value, not
+    a fork)."""
+    if idx.op == 'const':
+        return IntVal(values[idx.args[0]])
+    t = mk('select', (idx, tuple(values)), INT)
+    t.lo, t.hi = min(values), max(values)
+    return t
+
+
 def BitChar(v, sh, top=False):
     """ASCII '0'/'1' of bit `sh` of the non-negative Int term v (lazy: no bit variable, no defining equation)."""
     t = mk('bitchr', (v, sh), INT)
@@ -584,6 +603,15 @@ def to_z3(t):
         z = _z3.If(to_z3(a[0]), to_z3(a[1]), to_z3(a[2]))
     elif op == 'bitchr':
         z = 48 + (to_z3(a[0]) / (2 ** a[1])) % 2
+    elif op == 'nibchr':
+        n = to_z3(a[0])
+        z = _z3.If(n < 10, 48 + n, 87 + n)
+    elif op == 'select':
+        i = to_z3(a[0])
+        vals = a[1]
+        z = _z3.IntVal(vals[-1])
+        for k in range(len(vals) - 2, -1, -1):
+            z = _z3.If(i == k, _z3.IntVal(vals[k]), z)
     elif op in ('hexhi', 'hexlo'):
         b = to_z3(a[0])
         if t.sort == BV:
@@ -756,6 +784,10 @@ def evaluate(t, model):
         return ord(('%02x' % evaluate(a[0], model))[0 if op == 'hexhi' else 1])
     if op == 'bitchr':
         return 48 + ((evaluate(a[0], model) >> a[1]) & 1)
+    if op == 'nibchr':
+        return ord('%x' % evaluate(a[0], model))
+    if op == 'select':
+        return a[1][evaluate(a[0], model)]
     raise NotImplementedError('evaluate ' + op)
 
 
